@@ -15,12 +15,13 @@ from cflib.crtp.crtpstack import CRTPPacket
 
 class Config:
     def __init__(self, n_log=3, n_param=2, fault_at=None, fault_mode='driver', log_crc=0x11111111, par_crc=0x22222222,
-                 needs_resending=False, hold_after=None):
+                 needs_resending=False, hold_after=None, dup_notify=False):
         self.n_log, self.n_param = n_log, n_param
         self.fault_at, self.fault_mode = fault_at, fault_mode
         self.log_crc, self.par_crc = log_crc, par_crc
         self.needs_resending = needs_resending
         self.hold_after = hold_after     # device stops answering after this many exchanged packets (silent peer)
+        self.dup_notify = dup_notify     # firmware re-announces parameter 0 (value-updated notifications) during the download
 
 
 class FakeLink(CRTPDriver):
@@ -179,6 +180,9 @@ class FakeLink(CRTPDriver):
         elif p == 2 and ch == 1:
             i = struct.unpack('<H', d[0:2])[0]
             self._reply(2, 1, struct.pack('<HBB', i, 0, (i + 40) & 0xFF))
+            if c.dup_notify and i == 0:
+                for _ in range(3):           # MISC_VALUE_UPDATED for parameter 0, same value
+                    self._reply(2, 3, struct.pack('<BHB', 1, 0, 40))
         elif p == 2 and ch == 2:
             i = struct.unpack('<H', d[0:2])[0]
             self._reply(2, 2, d[0:2] + b'\x00' + d[2:])
